@@ -168,6 +168,10 @@ func (srv *Server) handleChannel(ctx context.Context, c *ServerChannel) {
 			ctx, cancel := context.WithTimeout(context.Background(), time.Second)
 			defer cancel()
 			_ = c.FinishSession(ctx)
+		} else if c.State() == SessionStateEstablished {
+			// The remote party has left without finishing the session: release the
+			// connection, which would otherwise stay open on this side.
+			_ = c.Close()
 		}
 
 		finished := srv.config.Finished
